@@ -143,6 +143,12 @@ Proof.
     + exact (C07_round_trip_a_form stat _ _ _ _ _ _ _ Hspec Hb Hfok Hk H103 Ew).
 Qed.
 
+(* the operator condition of filter_ok is what the -F scanner returns: a bare < > & is followed by '=' only
+   when that '=' is the whole value (the one corner the theorem leaves out) *)
+Theorem C07_scanner_output_in_domain : forall v lhs o rhs, scan_filter v = Some (lhs, o, rhs) ->
+  op_rhs_ok o rhs = true \/ rhs = ["="%char].
+Proof. exact scan_filter_rhs_ok. Qed.
+
 (* the value codecs on their own: whatever ToCommandLine prints after the operator is read back as the value *)
 Theorem C07_values_read_back f v t : f <> 111 -> value_in_range f v -> print_value f v = Some t -> parse_value f t = VOk v.
 Proof. exact (value_round_trip f v t). Qed.
@@ -155,6 +161,7 @@ Print Assumptions C07_wire_roundtrip.
 Print Assumptions C07_round_trip_a_form.
 Print Assumptions C07_round_trip_w_form.
 Print Assumptions C07_round_trip.
+Print Assumptions C07_scanner_output_in_domain.
 Print Assumptions C07_values_read_back.
 Print Assumptions C07_mask_read_back.
 
